@@ -207,7 +207,7 @@ REFS = [(0.0, 0.0, 0.0), (0.25, 0.5, 1.0), (0.1, 0.2, 0.3), (-1.5, 3.0e38, 1e-40
 BUMPS = [1.0, 0.0, 2.5, 0.1]
 
 # resources: list of (key kind, key, flags, data kind, data).  Flag bit 0x02 is the format's own marker
-# for "value stored inline" and is therefore generated consistently with the data type.
+# for "value stored inline"; it is generated consistently with the data type except in 'inconsistent'.
 RES = {
     'none': [],
     'int': [('enum', 'CRC', 0x02, 'int', 0x12345678)],
